@@ -81,7 +81,29 @@ def sweeps(tier):
                     for v in (0, 1, 1 << (bits - 1), (1 << bits) - 1, 0x3C00 if bits == 16 else (0x3F800000 if bits == 32 else 0x3FF0000000000000),
                               0x0102030405060708 & ((1 << bits) - 1)):
                         cases.append({'bo': bo, 'wo': wo, 'via': via, 'items': [[name, v]]})
-    return [('each-type-alone-x-orders-x-boundaries', cases, False)]
+    out = [('each-type-alone-x-orders-x-boundaries', cases, False)]
+    # long payloads (the 256th item, the 1000th byte): every type in rotation
+    names = sorted(INTS) + sorted(FLOATS) + ['bits', 'str']
+    long_cases = []
+    for bo in '<>':
+        for wo in '<>':
+            for via in ('bytes', 'regs'):
+                items = []
+                for i in range(400):
+                    nme = names[i % len(names)]
+                    if nme in INTS:
+                        size, signed = INTS[nme]
+                        v = (i * 0x0101010101010101 + i) & ((1 << (size * 8 - (1 if signed else 0))) - 1)
+                        items.append([nme, -v - 1 if signed and i % 2 else v])
+                    elif nme in FLOATS:
+                        items.append([nme, (i * 2654435761) & ((1 << (FLOATS[nme][0] * 8)) - 1)])
+                    elif nme == 'bits':
+                        items.append(['bits', [bool((i >> j) & 1) for j in range(8)]])
+                    else:
+                        items.append(['str', ('%02x' % (i & 0xFF)) * (1 + i % 3)])
+                long_cases.append({'bo': bo, 'wo': wo, 'via': via, 'items': items})
+    out.append(('long-payloads-of-400-items', long_cases, False))
+    return out
 
 
 def _fval(name, pattern):
